@@ -47,6 +47,55 @@ fn run_variant(len: usize, idx: u64, flags: u64) -> Result<u64, (String, String)
     Ok(steps)
 }
 
+/// step_over variant: each `step_over` call is one execution (the observer is cleared when it starts): what it leaves in the observer must
+/// be the union of what the instructions it executed accessed (the calling instruction's own fetch and pushes included).
+fn stepover_variant(len: usize, idx: u64, flags: u64) -> Result<u64, (String, String)> {
+    // virtual traps only: under real traps a program that faults into an exception loop never completes an instruction, and step_over
+    // (which has no step limit of its own) would not return
+    let flags = flags & 2;
+    let (m, words) = program_machine(len, idx, flags);
+    let mut p = build(&m);
+    let mut calls = 0u64;
+    // step_over has no step limit of its own: a harness device clears the machine-control register 3000 polls into a call, which ends it
+    // (calls cut short this way are not compared)
+    let brake = p.add_source(0x90, 0, vec![]);
+    p.sources[brake].state.lock().unwrap_or_else(|e| e.into_inner()).mcr = Some(p.sim.mcr().clone());
+    while p.rf.instr_count < HORIZON as u64 && calls < 60 {
+        { let mut st = p.sources[brake].state.lock().unwrap_or_else(|e| e.into_inner()); st.clear_mcr_at = Some(st.poll + 3000); }
+        let n0 = p.sim.instructions_run;
+        let r = catch(|| p.sim.step_over());
+        let res = match r { Err(m) => return Err((format!("panic:{}", panic_site(&m)), m)), Ok(x) => x };
+        calls += 1;
+        let mut exp: BTreeMap<u16, (bool, bool, bool)> = BTreeMap::new();
+        let mut last = Outcome::Executed;
+        let target = p.sim.instructions_run;
+        let mut guard = 0;
+        loop {
+            if p.rf.instr_count >= target && !(target == n0 && guard == 0) { break; }
+            last = p.rf.step(&[]); guard += 1;
+            for a in &p.rf.log { let e = exp.entry(a.addr).or_default(); if a.write { e.1 = true; if a.changed { e.2 = true; } } else { e.0 = true; } }
+            if matches!(last, Outcome::Halt | Outcome::Err(_) | Outcome::Exception(_)) || p.rf.saw_user_rti || guard > 4000 { break; }
+        }
+        // the call ended on an instruction that does not complete (virtual HALT parks the machine, a fault is reported): its accesses belong to the call
+        if (p.sim.hit_halt() || res.is_err()) && !matches!(last, Outcome::Halt | Outcome::Err(_)) && guard > 0 && p.rf.instr_count == target {
+            last = p.rf.step(&[]);
+            for a in &p.rf.log { let e = exp.entry(a.addr).or_default(); if a.write { e.1 = true; if a.changed { e.2 = true; } } else { e.0 = true; } }
+            if !matches!(last, Outcome::Halt | Outcome::Err(_)) { return Ok(calls); }
+        }
+        if p.rf.saw_user_rti || matches!(last, Outcome::Exception(_)) || p.rf.instr_count != p.sim.instructions_run || p.rf.pc != p.sim.pc { return Ok(calls); } // the two ended differently (judged by C13/C08), nothing to compare
+        let ctx = format!("step_over call {calls} of program {words:x?} flags {flags} (instructions {n0}..{target})");
+        let got: BTreeMap<u16, (bool, bool, bool)> = p.sim.observer.take_mem_accesses().map(|(a, s)| (a, (s.read(), s.written(), s.modified()))).collect();
+        for (a, (r, w, _)) in &got {
+            if *a >= 0xFE00 { continue; }
+            let e = exp.get(a).copied().unwrap_or_default();
+            if *r != e.0 || *w != e.1 { return Err((format!("observer:step_over:{}", if *r != e.0 { "read" } else { "written" }), format!("{ctx}: x{a:04X} marked read={r} written={w}, the executed instructions read={} wrote={}", e.0, e.1))); }
+        }
+        for (a, e) in &exp { if *a < 0xFE00 && !got.contains_key(a) { return Err(("observer:step_over:missing".into(), format!("{ctx}: x{a:04X} accessed (read={} written={}) during the call but not recorded", e.0, e.1))); } }
+        if res.is_err() || matches!(last, Outcome::Halt | Outcome::Err(_)) { break; }
+    }
+    Ok(calls)
+}
+
 /// Peek variant: a front end that reads the observer between steps with the non-draining `get_mem_accesses` (step_in clears the
 /// observer itself): after every step each address the step accessed carries exactly its flags, and every address the previous
 /// step accessed but this one did not is back to empty.
@@ -89,7 +138,7 @@ fn peek_on((m, words): (Machine, Vec<u16>)) -> Result<u64, (String, String)> {
 }
 
 pub fn run(ctx: &Ctx) -> Report {
-    let mut rep = Report::new("same exploration as C08-S1 (every word x machine contexts, one step + the following fetch) and C08-S2 (all programs of <=2 (3) instructions over the 40-word alphabet, per step_in) with the AccessObserver compared after every step against RefLC3's ordered access log: read/written sets equal on non-I/O addresses, no I/O address marked written that the instruction did not write, modified subset of written and superset of value-changing writes; plus the same programs stepped with the observer only peeked (get_mem_accesses, never drained: consecutive executions whose last and first access hit the same address) (also every program of <=3 self-referential words: loads, stores and branches aimed at the instruction itself or its neighbour) and under run_with_limit (observer accumulates over the run) and host accesses through omnipotent()/track_access:false contexts leave the observer empty. non-trivial = steps that access data memory");
+    let mut rep = Report::new("same exploration as C08-S1 (every word x machine contexts, one step + the following fetch) and C08-S2 (all programs of <=2 (3) instructions over the 40-word alphabet, per step_in) with the AccessObserver compared after every step against RefLC3's ordered access log: read/written sets equal on non-I/O addresses, no I/O address marked written that the instruction did not write, modified subset of written and superset of value-changing writes; plus the same programs stepped with the observer only peeked (get_mem_accesses, never drained: consecutive executions whose last and first access hit the same address) (also every program of <=3 self-referential words: loads, stores and branches aimed at the instruction itself or its neighbour) under step_over (one observer generation per call: the union over the instructions the call executed) and under run_with_limit (observer accumulates over the run) and host accesses through omnipotent()/track_access:false contexts leave the observer empty. non-trivial = steps that access data memory");
     let nctx = context_count(ctx.thorough());
     let wstride = ctx.pick(1u64, 1u64);
     let r = sweep(ctx, nctx * 65536 / wstride, 1024, |k, acc| {
@@ -106,10 +155,10 @@ pub fn run(ctx: &Ctx) -> Report {
     let maxlen = ctx.pick(2usize, 3usize);
     for len in 1..=maxlen {
         let n = 40u64.pow(len as u32);
-        let r = sweep(ctx, n * 4 * 3, 16, |k, acc| {
-            let (idx, flags, variant) = (k / 12, k / 3 % 4, k % 3);
+        let r = sweep(ctx, n * 4 * 4, 16, |k, acc| {
+            let (idx, flags, variant) = (k / 16, k / 4 % 4, k % 4);
             acc.evals += 1;
-            let res = if variant == 0 { acc.count("s2_step_programs", 1); s2(len, idx, flags, true).map(|x| x.0) } else if variant == 1 { acc.count("s2_run_programs", 1); run_variant(len, idx, flags) } else { acc.count("s2_peek_programs", 1); peek_variant(len, idx, flags) };
+            let res = if variant == 0 { acc.count("s2_step_programs", 1); s2(len, idx, flags, true).map(|x| x.0) } else if variant == 1 { acc.count("s2_run_programs", 1); run_variant(len, idx, flags) } else if variant == 2 { acc.count("s2_peek_programs", 1); peek_variant(len, idx, flags) } else { acc.count("s2_stepover_programs", 1); stepover_variant(len, idx, flags) };
             match res {
                 Ok(steps) => { acc.transitions += steps; acc.traces += 1; acc.nontrivial += 1; }
                 Err((sig, d)) => if sig.starts_with("observer") || sig.starts_with("panic") { acc.violation(sig, format!("s2:{len}:{idx}:{flags}:{variant}"), d) },
@@ -139,7 +188,7 @@ pub fn replay(case: &str) -> Option<String> {
     let n = |i: usize| -> Option<u64> { p.get(i)?.parse().ok() };
     let r = match *p.first()? {
         "s1" => s1(n(1)?, n(2)? as u16, true).map(|_| ()),
-        "s2" => match n(4)? { 0 => s2(n(1)? as usize, n(2)?, n(3)?, true).map(|_| ()), 1 => run_variant(n(1)? as usize, n(2)?, n(3)?).map(|_| ()), _ => peek_variant(n(1)? as usize, n(2)?, n(3)?).map(|_| ()) },
+        "s2" => match n(4)? { 0 => s2(n(1)? as usize, n(2)?, n(3)?, true).map(|_| ()), 1 => run_variant(n(1)? as usize, n(2)?, n(3)?).map(|_| ()), 2 => peek_variant(n(1)? as usize, n(2)?, n(3)?).map(|_| ()), _ => stepover_variant(n(1)? as usize, n(2)?, n(3)?).map(|_| ()) },
         "sr" => peek_selfref(n(1)? as usize, n(2)?, n(3)?).map(|_| ()),
         _ => return None,
     };
